@@ -278,28 +278,33 @@ pub fn run_c08(args: &Args) -> ! {
     let dl = args.deadline();
     let mut rep = Report::new("C08", "model_checking");
     let thorough = args.tier == Tier::Thorough;
-    let wss = u::workspaces(thorough);
-    let base = u::base_case(&u::FILES);
-    // consistent starting states S0
-    let mut prefixes: Vec<(Vec<Op>, bool)> = Vec::new(); // (ops, deep)
+    let wss = u::all_workspaces(thorough);
+    // consistent starting states S0: (workspace index, ops, explored to the deeper bound)
+    let mut prefixes: Vec<(usize, Vec<Op>, bool)> = Vec::new();
     let n_deep = if thorough { 4 } else { 3 };
-    for (wi, w) in wss.iter().enumerate() {
-        let deep = wi < n_deep;
-        prefixes.push((vec![u::load(w)], deep));
-        prefixes.push((vec![u::load(w), Op::Reindex], deep));
-        if wi < 6 {
+    let mut main_seen = 0usize;
+    for (wi, ws) in wss.iter().enumerate() {
+        let w = &ws.assign;
+        let idx_in_kind = if ws.split { 0 } else { main_seen };
+        if !ws.split {
+            main_seen += 1;
+        }
+        let deep = ws.split || idx_in_kind < n_deep;
+        prefixes.push((wi, vec![u::load_s(w)], deep));
+        prefixes.push((wi, vec![u::load_s(w), Op::Reindex], deep));
+        if ws.split || idx_in_kind < 6 {
             // every state reachable by ≤ 2 edits, then reindex
-            let m = Model::of(&[u::load(w)]);
-            let files: Vec<&str> = w.iter().map(|x| x.0).collect();
-            let edits: Vec<Op> = set_ops(&base, &m, true, &files).into_iter().filter(|o| matches!(o, Op::Set{f,v} if m.files[f].1 != Some(*v))).collect();
+            let m = Model::of(&[u::load_s(w)]);
+            let files: Vec<&str> = w.iter().map(|x| x.0.as_str()).collect();
+            let edits: Vec<Op> = set_ops(&ws.base, &m, true, &files).into_iter().filter(|o| matches!(o, Op::Set{f,v} if m.files[f].1 != Some(*v))).collect();
             for e in &edits {
-                prefixes.push((vec![u::load(w), e.clone(), Op::Reindex], false));
+                prefixes.push((wi, vec![u::load_s(w), e.clone(), Op::Reindex], false));
             }
             if thorough {
                 for e1 in &edits {
                     for e2 in &edits {
                         if e1.files() != e2.files() {
-                            prefixes.push((vec![u::load(w), e1.clone(), e2.clone(), Op::Reindex], false));
+                            prefixes.push((wi, vec![u::load_s(w), e1.clone(), e2.clone(), Op::Reindex], false));
                         }
                     }
                 }
@@ -323,15 +328,16 @@ pub fn run_c08(args: &Args) -> ! {
         // transitions of this level
         let mut trans: Vec<(usize, Vec<Op>)> = Vec::new();
         for (pi, suffix) in &frontier {
-            let (pre, deep) = &prefixes[*pi];
+            let (wi, pre, deep) = &prefixes[*pi];
+            let base = &wss[*wi].base;
             if depth > depth_all && !*deep {
                 continue;
             }
             let mut ops = pre.clone();
             ops.extend(suffix.iter().cloned());
             let m = Model::of(&ops);
-            let files: Vec<&str> = u::FILES.to_vec();
-            let mut alpha = set_ops(&base, &m, true, &files);
+            let files: Vec<&str> = base.texts.keys().map(|k| k.as_str()).collect();
+            let mut alpha = set_ops(base, &m, true, &files);
             if depth == 1 {
                 alpha.extend(resubmit_batches(&m, &[2, 3], true));
             } else {
@@ -349,8 +355,8 @@ pub fn run_c08(args: &Args) -> ! {
         let results: Mutex<Vec<(usize, String)>> = Mutex::new(Vec::new());
         let (st, done) = par_range(trans.len() as u64, args.threads, &dl, |i, st| {
             let (pi, suffix) = &trans[i as usize];
-            let mut case = base.clone();
-            case.ops = prefixes[*pi].0.clone();
+            let mut case = wss[prefixes[*pi].0].base.clone();
+            case.ops = prefixes[*pi].1.clone();
             case.ops.push(Op::Mark);
             case.ops.extend(suffix.iter().cloned());
             let judged = c08_valid(&case);
@@ -390,7 +396,7 @@ pub fn run_c08(args: &Args) -> ! {
     let raws = raws.into_inner().unwrap();
     finalize("C08", raws, &|c, class| if c08_valid(c) { c08_check(c, None).findings.into_iter().find(|f| f.class == class).map(|f| f.detail) } else { None }, &mut all, args.threads, 3, &dl);
     rep.rule = format!(
-        "family B: from each of {} consistent states S0 (batch load of a designed workspace; + reindex; + every single edit then reindex{}) every sequence of ≤{depth_all} ops (≤{depth_deep} for the first {n_deep} workspaces) over {{update_file_by_uri(f, variant v) for every live f and every v (v = current: re-submission; else edit, judged once restored), update_files_by_uri re-submission of every pair/triple/all live files in every H2 seam order (depth ≥2: pairs in both orders, all files in identity and reverse order)}}; oracle at every state whose contents equal S0's: observable dump (diagnostics, per-token type/decl/definition/hover doc, per-expression type, references, members, globals, types, operators, module records, require resolution) identical to S0's and every H1 index size ≤ S0's; states merged on (contents, dump hash, size report); S0 excluded when three fresh analyses of it disagree",
+        "family B: from each of {} consistent states S0 (batch load of a designed workspace of the main universe or of one of the five split-declaration workspaces [a type declared in two files where only one file carries the super type / generic parameters / fields / operators+overload / enum fields+alias origin, plus an observer file]; + reindex; + every single edit then reindex{}) every sequence of ≤{depth_all} ops (≤{depth_deep} for the first {n_deep} main workspaces and every split workspace) over {{update_file_by_uri(f, variant v) for every live f and every v (v = current: re-submission; else edit, judged once restored), update_files_by_uri re-submission of every pair/triple/all live files in every H2 seam order (depth ≥2: pairs in both orders, all files in identity and reverse order)}}; oracle at every state whose contents equal S0's: observable dump (diagnostics, per-token type/decl/definition/hover doc, per-expression type, references, members, globals, types, operators, module records, require resolution) identical to S0's and every H1 index size ≤ S0's; states merged on (contents, dump hash, size report); S0 excluded when three fresh analyses of it disagree",
         prefixes.len(),
         if thorough { " and every pair of edits then reindex" } else { "" }
     );
@@ -426,7 +432,7 @@ fn c09_alphabet(case: &Case, m: &Model, files: &[&str]) -> Vec<Op> {
         }
     }
     // batches: load everything at variant 1; close every live file; mixed pair (one edit + one close)
-    out.push(Op::Batch { items: files.iter().map(|f| (f.to_string(), Some(1))).collect(), order: None, rorder: None });
+    out.push(Op::Batch { items: files.iter().map(|f| (f.to_string(), Some(1.min(case.texts.get(*f).map(|t| t.len()).unwrap_or(1).saturating_sub(1))))).collect(), order: None, rorder: None });
     let live = m.live();
     if live.len() >= 2 {
         out.push(Op::Batch { items: live.iter().map(|(f, _)| (f.clone(), None)).collect(), order: None, rorder: None });
@@ -450,9 +456,15 @@ pub fn run_c09(args: &Args) -> ! {
     let files: Vec<&str> = if thorough { u::FILES.to_vec() } else { vec![u::A, u::B, u::C, u::L] };
     let base = u::base_case(&files);
     let wss: Vec<Vec<(&str, usize)>> = u::workspaces(false).into_iter().filter(|w| w.iter().all(|x| files.contains(&x.0))).collect();
-    let mut prefixes: Vec<Vec<Op>> = vec![vec![]];
+    // (universe index, ops): universe 0 is the main one, the others are the split-declaration workspaces
+    let mut bases: Vec<Case> = vec![base.clone()];
+    let mut prefixes: Vec<(usize, Vec<Op>)> = vec![(0, vec![])];
     for w in wss.iter().take(if thorough { 6 } else { 3 }) {
-        prefixes.push(vec![u::load(w)]);
+        prefixes.push((0, vec![u::load(w)]));
+    }
+    for ws in u::split_workspaces() {
+        bases.push(ws.base.clone());
+        prefixes.push((bases.len() - 1, vec![u::load_s(&ws.assign)]));
     }
     let depth = if thorough { 3 } else { 2 };
     let cache = FreshCache::default();
@@ -468,10 +480,12 @@ pub fn run_c09(args: &Args) -> ! {
     for d in 1..=depth {
         let mut trans: Vec<(usize, Vec<Op>)> = Vec::new();
         for (pi, suffix) in &frontier {
-            let mut ops = prefixes[*pi].clone();
+            let (bi, pre) = &prefixes[*pi];
+            let mut ops = pre.clone();
             ops.extend(suffix.iter().cloned());
             let m = Model::of(&ops);
-            for a in c09_alphabet(&base, &m, &files) {
+            let ufiles: Vec<&str> = if *bi == 0 { files.clone() } else { bases[*bi].texts.keys().map(|k| k.as_str()).collect() };
+            for a in c09_alphabet(&bases[*bi], &m, &ufiles) {
                 let mut s = suffix.clone();
                 s.push(a);
                 trans.push((*pi, s));
@@ -480,8 +494,8 @@ pub fn run_c09(args: &Args) -> ! {
         let results: Mutex<Vec<(usize, String)>> = Mutex::new(Vec::new());
         let (st, done) = par_range(trans.len() as u64, args.threads, &dl, |i, st| {
             let (pi, suffix) = &trans[i as usize];
-            let mut case = base.clone();
-            case.ops = prefixes[*pi].clone();
+            let mut case = bases[prefixes[*pi].0].clone();
+            case.ops = prefixes[*pi].1.clone();
             case.ops.extend(suffix.iter().cloned());
             let v = c09_check(&case, Some(&cache));
             st.eval(!Model::of(&case.ops).live().is_empty());
@@ -514,8 +528,8 @@ pub fn run_c09(args: &Args) -> ! {
     let raws = raws.into_inner().unwrap();
     finalize("C09", raws, &|c, class| if c09_valid(c) { c09_check(c, None).findings.into_iter().find(|f| f.class == class).map(|f| f.detail) } else { None }, &mut all, args.threads, 3, &dl);
     rep.rule = format!(
-        "family B: from the empty analysis and {} batch-loaded workspaces, every history of ≤{depth} ops over {{update_file_by_uri(f,v) for all {} files × variants, update_file_by_uri(f,None), remove_file_by_uri(f), three update_files_by_uri batches (load all, close all, edit+close with permuted seams), update_config to each of {} configurations, reindex}} (states merged on contents+file-id order+dump hash+size report); oracle in every state: reindex() then the observable dump equals that of a fresh analysis that batch-loads the surviving files in the same file-id order under the final configuration (fresh reference computed three times; excluded if unstable); undecided when a file was parsed under an older configuration whose parse differs (reindex does not re-parse and the statement does not say it should)",
-        prefixes.len() - 1,
+        "family B: from the empty analysis, {} batch-loaded workspaces of the main universe and the five batch-loaded split-declaration workspaces (type declared in two files, one carrying super / generics / fields / operators / enum+alias, plus an observer), every history of ≤{depth} ops over {{update_file_by_uri(f,v) for all {} files × variants, update_file_by_uri(f,None), remove_file_by_uri(f), three update_files_by_uri batches (load all, close all, edit+close with permuted seams), update_config to each of {} configurations, reindex}} (states merged on contents+file-id order+dump hash+size report); oracle in every state: reindex() then the observable dump equals that of a fresh analysis that batch-loads the surviving files in the same file-id order under the final configuration (fresh reference computed three times; excluded if unstable); undecided when a file was parsed under an older configuration whose parse differs (reindex does not re-parse and the statement does not say it should)",
+        prefixes.len() - 1 - (bases.len() - 1),
         files.len(),
         base.configs.len()
     );
@@ -530,19 +544,25 @@ pub fn run_c10(args: &Args) -> ! {
     let dl = args.deadline();
     let mut rep = Report::new("C10", "model_checking");
     let thorough = args.tier == Tier::Thorough;
-    let base = u::base_case(&u::FILES);
-    let mut wss = u::workspaces(false);
+    let mut wss = u::all_workspaces(false);
     if thorough {
-        wss.push(vec![(u::A, 0), (u::B, 0), (u::C, 0), (u::L, 0), (u::D, 0)]);
-        wss.push(vec![(u::A, 0), (u::B, 1), (u::C, 1), (u::L, 1), (u::D, 1)]);
-        wss.push(vec![(u::A, 1), (u::B, 2), (u::C, 0), (u::L, 0), (u::D, 1)]);
+        for w in [vec![(u::A, 0), (u::B, 0), (u::C, 0), (u::L, 0), (u::D, 0)], vec![(u::A, 0), (u::B, 1), (u::C, 1), (u::L, 1), (u::D, 1)], vec![(u::A, 1), (u::B, 2), (u::C, 0), (u::L, 0), (u::D, 1)]] {
+            wss.push(u::Ws { name: "main", base: u::base_case(&u::FILES), assign: w.iter().map(|(f, v)| (f.to_string(), *v)).collect(), split: false });
+        }
+        // split workspaces with the second file also contributing
+        for mut ws in u::split_workspaces() {
+            ws.assign[1].1 = 1;
+            wss.push(ws);
+        }
     }
     // histories: add (batch, or one by one + reindex), then remove every subset in every order by every method
     let mut cases: Vec<Case> = Vec::new();
-    for w in &wss {
+    for ws in &wss {
+        let base = &ws.base;
+        let w: Vec<(&str, usize)> = ws.assign.iter().map(|(f, v)| (f.as_str(), *v)).collect();
         let n = w.len();
         let adds: Vec<Vec<Op>> = vec![
-            vec![u::load(w)],
+            vec![u::load(&w)],
             w.iter().map(|(f, v)| Op::Set { f: f.to_string(), v: *v }).chain(std::iter::once(Op::Reindex)).collect(),
         ];
         for add in &adds {
@@ -598,9 +618,9 @@ pub fn run_c10(args: &Args) -> ! {
     cnt.max_depth = cases.iter().map(|c| c.ops.len()).max().unwrap_or(0);
     cnt.distinct_dumps = keys.iter().map(|k| k.split('|').nth(2).unwrap_or("").to_string()).collect();
     rep.rule = format!(
-        "family B: for each of {} designed workspaces (≤{} files: globals, split/partial classes, members, modules incl. init.lua and a duplicate module name, operators, a library file) added by one batch load or by single updates + reindex, every non-empty subset of its files is removed in every order by remove_file_by_uri, by update_file_by_uri(None){} and by one update_files_by_uri batch of None; oracle in the final state (the set of histories is prefix-closed): (i) no dump line mentions the path or a dead file id of a removed file, (ii) H1 file_refs of the removed id is 0 in every index and the VFS (not judged: a live file's own dependency edge; the path registration that update(None) keeps by design), (iii) the dump equals that of a fresh batch load of the remaining files in the same file-id order",
+        "family B: for each of {} designed workspaces (≤{} files: globals, split/partial classes, members, modules incl. init.lua and a duplicate module name, operators, a library file; plus five split-declaration workspaces: a type declared in two files with only one carrying the super type / generics / fields / operators / enum+alias, and an observer file) added by one batch load or by single updates + reindex, every non-empty subset of its files is removed in every order by remove_file_by_uri, by update_file_by_uri(None){} and by one update_files_by_uri batch of None; oracle in the final state (the set of histories is prefix-closed): (i) no dump line mentions the path or a dead file id of a removed file, (ii) H1 file_refs of the removed id is 0 in every index and the VFS (not judged: a live file's own dependency edge; the path registration that update(None) keeps by design), (iii) the dump equals that of a fresh batch load of the remaining files in the same file-id order",
         wss.len(),
-        wss.iter().map(|w| w.len()).max().unwrap_or(0),
+        wss.iter().map(|w| w.assign.len()).max().unwrap_or(0),
         if thorough { ", mixed methods for pairs," } else { "" }
     );
     rep.exhaustive = done;
